@@ -1069,3 +1069,35 @@ package spine
 //@   loop 0 invariant len: len(entities) == Fcnt($k)
 //@   loop 0 invariant elems: forall j int :: 0 <= j && j < $k && kept($s[j]) ==> entities[Fcnt(j)] == $s[j]
 //@   loop 0 invariant locked: held(r.mux) && $s == L0 && hbstopn == pre(hbstopn) && hbstopmgr == pre(hbstopmgr)
+
+// ---------------------------------------------------------------------------------------
+// per-function data store (C02, C04, C11), verified once for every payload type T
+
+//@ func (*FunctionData).SupportsPartialWrite trusted pure const
+
+// a snapshot: a fresh copy of the stored value (or nil); the store itself is untouched
+//@ func (*FunctionData).DataCopy
+//@   requires r != nil
+//@   ensures[C11] empty: old(r.data) == nil ==> result == nil
+//@   ensures[C11] copy: old(r.data) != nil ==> result != nil && fresh(result) && *result == old(*r.data)
+//@   ensures[C11] store-untouched: r.data == old(r.data) && (r.data != nil ==> *r.data == old(*r.data))
+//@   ensures[C11] atomic: acquisitions(r.mux) == 1 && locksUnchanged()
+//@   modifies held
+
+// full update (no filter, persisting): the stored value is replaced by the new one. Otherwise the update goes to the
+// list's UpdateList with exactly the given arguments; the store keeps its value object; an error is returned iff the
+// engine reported failure; an empty store stays empty unless the update succeeded and is persisted
+//@ field[C11,C17] FunctionData.data guarded_by mux
+//@ func (*FunctionData).UpdateData
+//@   requires r != nil
+//@   let D0 = r.data
+//@   define fast = filterPartial == nil && filterDelete == nil && persist
+//@   define partialOK = !fast && r.SupportsPartialWrite()
+//@   ensures[C02] full-update-replaces: fast ==> r.data == newData && result1 == nil && typeIs(result0, *T) && result0.(*T) == newData
+//@   ensures[C02] no-partial-support: !fast && !r.SupportsPartialWrite() ==> result1 != nil && r.data == D0
+//@   ensures[C02,C04,C11] engine-args: partialOK ==> arg(UpdateList, 1) == remoteWrite && arg(UpdateList, 2) == persist && arg(UpdateList, 3) == iface(newData) && arg(UpdateList, 4) == filterPartial && arg(UpdateList, 5) == filterDelete
+//@   ensures[C02,C04] error-iff-engine-failed: partialOK ==> ((result1 != nil) <==> !res(UpdateList, 1)) && (result1 == nil ==> result0 == res(UpdateList, 0)) && (result1 != nil ==> result0 == nil)
+//@   ensures[C11,C04] store-object-kept: !fast && D0 != nil ==> r.data == D0
+//@   ensures[C11,C04] empty-store-stays-empty: !fast && D0 == nil && (result1 != nil || !persist) ==> r.data == nil
+//@   ensures[C11] atomic: acquisitions(r.mux) == 1 && locksUnchanged()
+//@   modifies r.data, cells(T), cells(model.ErrorType), cells(model.DescriptionType), world, held
